@@ -356,6 +356,9 @@ func oracle(r result) (string, string) {
 			if len(r.h.FallbackPay) == 0 || !bytes.HasPrefix(w, r.h.FallbackPay) {
 				return "c2s:fallback-payload-modified", fmt.Sprintf("%s: fallback payload (%d bytes) is not the untouched received prefix", c.Kind, len(r.h.FallbackPay))
 			}
+			if !r.h.FallbackConn || !bytes.Equal(append(bytes.Clone(r.h.FallbackPay), r.h.FallbackRest...), w) {
+				return "c2s:fallback-stream-not-the-received-bytes", fmt.Sprintf("%s: the fallback destination got %d payload + %d further bytes, which are not the %d bytes received, unmodified", c.Kind, len(r.h.FallbackPay), len(r.h.FallbackRest), len(w))
+			}
 			if eqA || eqB {
 				// a genuine handshake was not accepted: only legitimate if the transport cut the fixed part (first-read) — one segment here
 				if c.SegMode != "bytes" || c.A.Cfg.AllowSeg {
